@@ -111,7 +111,6 @@ impl TraitHandler for DebugEnumHandler {
                                 if let Some(method) = field_attribute.method {
                                     block_token_stream.extend(super::common::create_format_arg(
                                         ast,
-                                        ty,
                                         &method,
                                         quote!(#field_name_var),
                                     ));
@@ -165,7 +164,6 @@ impl TraitHandler for DebugEnumHandler {
                                 if let Some(method) = field_attribute.method {
                                     block_token_stream.extend(super::common::create_format_arg(
                                         ast,
-                                        ty,
                                         &method,
                                         quote!(#field_name_var),
                                     ));
@@ -233,7 +231,6 @@ impl TraitHandler for DebugEnumHandler {
                                 if let Some(method) = field_attribute.method {
                                     block_token_stream.extend(super::common::create_format_arg(
                                         ast,
-                                        ty,
                                         &method,
                                         quote!(#field_name_var),
                                     ));
@@ -285,7 +282,6 @@ impl TraitHandler for DebugEnumHandler {
                                 if let Some(method) = field_attribute.method {
                                     block_token_stream.extend(super::common::create_format_arg(
                                         ast,
-                                        ty,
                                         &method,
                                         quote!(#field_name_var),
                                     ));
